@@ -100,17 +100,21 @@ def fit_model(case, m=None, before_final=None):
     I = np.array(pre["I"], dtype=int) if pre else None
     if case.get("refit"):
         # history: the same model object was fitted before on other data of the same shape (reversed rows, shifted values)
-        X0 = X[::-1] * 1.5 + 0.25
+        X0, Y0 = (X[::-1] * 1.5 + 0.25).copy(), Y[::-1].copy()
         if case["model"] == "knn":
-            safe_call(m.fit, X0.copy(), Y[::-1].copy(), V.copy(), YV.copy(), I, np.array(pre["IV"], dtype=int) if pre else None)
+            safe_call(m.fit, X0, Y0, V.copy(), YV.copy(), I, np.array(pre["IV"], dtype=int) if pre else None)
         else:
-            safe_call(m.fit, X0.copy(), Y[::-1].copy(), I)
+            safe_call(m.fit, X0, Y0, I)
+        if len(X) % 2 == 0:
+            # same array objects, overwritten in place, handed to the final fit
+            X0[:], Y0[:] = X, Y
+            X, Y = X0, Y0
     if before_final is not None:
         before_final()
     if case["model"] == "knn":
         IV = np.array(pre["IV"], dtype=int) if pre else None
-        return m, safe_call(m.fit, X.copy(), Y.copy(), V.copy(), YV.copy(), I, IV)
-    return m, safe_call(m.fit, X.copy(), Y.copy(), I)
+        return m, safe_call(m.fit, X if case.get("refit") else X.copy(), Y if case.get("refit") else Y.copy(), V.copy(), YV.copy(), I, IV)
+    return m, safe_call(m.fit, X if case.get("refit") else X.copy(), Y if case.get("refit") else Y.copy(), I)
 
 
 def predict(case, m, Q, IQ=None):
